@@ -34,7 +34,7 @@ CHECKS["C02"] = dict(
     rule=("rapid-generated frame descriptions over the product service shape x cEMI kind (14 shapes, 11 cEMI kinds; cell drawn "
           "uniformly), all fields over the ranges quantified in the statement; each is (1) built as a library value, encoded, decoded "
           "and compared field by field incl. dynamic type, service id and message code, (2) encoded by the independent reference "
-          "encoder, decoded by the library, re-encoded, decoded again and compared. Non-trivial = frame with a nested cEMI message or "
+          "encoder, decoded by the library, re-encoded, decoded again and compared; then the buffer the value was decoded from is overwritten and the value rendered and re-encoded once more (a relay reuses its receive buffer). Non-trivial = frame with a nested cEMI message or "
           "a description block; distinct by reference encoding."),
     level_text=("Sampled exploration of the value space with an exact round-trip oracle and an independent reference encoder for the "
                 "decode-first half; every service x cEMI cell is hit (histogram in the evidence)."),
@@ -53,7 +53,8 @@ CHECKS["C01"] = dict(
           "four buffer contexts (exact capacity; prefix of a 0x00-, 0xFF- and remnant-filled larger buffer). Receiver histories (job sock): "
           "sequences of 1..40 well-formed and malformed datagrams / TCP units (malformed body under a consistent header; a final unit with "
           "broken framing: total length 0..5, bad header octets, lying length, partial header) pushed through live DialTunnelUDP / "
-          "DialTunnelTCP sockets on loopback. Non-trivial = input that is "
+          "DialTunnelTCP sockets on loopback, the TCP stream of half of the plans written in 1..40-byte segments with pauses of 0..300 us. "
+          "Non-trivial = input that is "
           "not an unmodified valid encoding and (for knxnet.Unpack) has a valid header with a known service id, or a receiver sequence "
           "containing a malformed item; distinct by (target, bytes) / plan."),
     level_text=("Generated-input search with a four-way differential oracle (no panic, no hang by watchdog, n <= len, outcome "
@@ -139,7 +140,7 @@ CHECKS["C08"] = dict(
           "7-byte types, rapid-drawn strings of arbitrary and near-correct length. Non-trivial = wrong-length input, or correct-length "
           "input that is rejected, or accepted input with reserved/ignored bits set; distinct by (type, bytes)."),
     level_text=("Exhaustive on the short payload spaces and on all lengths 0..20 over a boundary alphabet, sampled elsewhere; oracle: no "
-                "panic, wrong length => error, success => independently written range predicate holds and String()/Unit() return."),
+                "panic, wrong length => error, success => independently written range predicate holds (incl. at most 14 characters of the type's character set for 16.xxx) and String()/Unit() return."),
     level_note="Trusted: the range predicates and the length table in harness/dptc (written from the documented ranges).",
     technique="exhaustive enumeration + rapid byte-string generation + go native fuzzing (thorough); totality (panic capture), length-rejection and independent range-predicate oracles",
     assumptions=["types whose main number is not in the harness length table are only checked for totality"],
@@ -179,17 +180,21 @@ CHECKS["C03"] = dict(
           "unsolicited acknowledgements at scripted times, disconnect requests forcing a reconnect between/within Sends. Each plan runs "
           "the real Tunnel inside a synctest bubble on an in-memory socket. Job real: 1..8 goroutines issuing 1..600 Sends in total "
           "against a reactive gateway with lost / duplicated / error / wrong-number / foreign-channel acknowledgements on the real "
-          "clock. Non-trivial = history with a retransmission, a failed Send, "
+          "clock. Job real-reconnect: 2..4 senders, the first request unacknowledged while the gateway ends the connection once or twice and "
+          "the client reconnects on a new (1 in 4: the same) channel. Non-trivial = history with a retransmission, a failed Send, "
           "an ignored/duplicate/error acknowledgement, the wrap, or >= 2 contending senders; distinct by plan."),
     level_text=("Sampled fault sequences on a fake clock with an exact reference model of the stop-and-wait sender (transmission times "
                 "t0+k*r, identical retransmissions, sequence number = acknowledged requests of the epoch mod 256, outcome and return "
                 "instant explained by an available matching acknowledgement, timeout at exactly t0+T); concurrent senders are sampled on "
-                "the real clock with timing-free invariants."),
+                "the real clock with timing-free invariants (identical retransmissions also across a reconnect, no second request in between)."),
     level_note="Trusted: the reference sender model in harness/tun/c03_test.go, memsock, the hook constructor VerifNewTunnel (duplicates NewTunnel after socket creation). Exact-timing clauses are decided for one outstanding Send at a time; contention is judged by order/accounting invariants only.",
     technique="rapid model-based testing of generated fault scripts under testing/synctest virtual time (exact reference model); rapid concurrent histories on the real clock with history invariants",
     assumptions=_TUN_ASSUME,
     jobs=[dict(name="bubble", pkg="./tun", go=GO126, test="TestC03B", shards=(4, 16), checks=(1500, 25000), timeout=(600, 3000)),
-          dict(name="real", pkg="./tun", go=GO, test="TestC03R", shards=(4, 16), checks=(40, 600), timeout=(600, 3000))],
+          dict(name="real", pkg="./tun", go=GO, test="TestC03R", shards=(4, 16), checks=(40, 600), timeout=(600, 3000)),
+          # real clock: a Send left unacknowledged while the gateway forces a reconnect (new or same channel) keeps
+          # retransmitting the request it transmitted first, and nothing else leaves in between
+          dict(name="real-reconnect", pkg="./tun", go=GO, test="TestC03RR", shards=(4, 16), checks=(6, 60), timeout=(600, 3000))],
 )
 
 CHECKS["C04"] = dict(
@@ -228,7 +233,9 @@ CHECKS["C14"] = dict(
     rule=("rapid-drawn histories: retain count 0 (=32) and 1..64, 1..300 Sends (10% scripted to fail) from 1..4 goroutines, lost indications "
           "with counts around the retained length and the retain count (0, 1, cap-1, cap, cap+1, 2cap, 65535) issued at quiescence "
           "(senders held, previous resend observed) or - in a fifth of the plans - un-gated, busy indications, inbound routing "
-          "indications in bursts, consumers always ready / stalled / intermittent, Close at a generated point, a final lost(65535). "
+          "indications in bursts, consumers always ready / stalled / intermittent, Close at a generated point, a final lost(65535), "
+          "socket errors at drawn positions of the transmission sequence (they hit retransmissions too). Job conformance: the real "
+          "constructors over IPv4 multicast with loopback. "
           "Non-trivial = history with a lost indication whose count differs from the retained length and a failed or trimmed message; "
           "distinct by plan."),
     level_text=("Sampled histories against the reference retained-window model: every emitted frame must be the transmission of a Send in "
@@ -263,12 +270,14 @@ CHECKS["C09"] = dict(
           "timeout+resend (exact accounting) or below the timeout (overlapping exchanges); one fate per connection-state request (OK "
           "after a delay around 0/r/T, lost, any non-zero status, foreign channel, duplicated), one per connect request (OK, lost, busy "
           "0x24/0x25, refused, junk), scripted disconnect requests/responses for the current or a foreign channel, unsolicited "
-          "connection-state responses, inbound requests, socket death, a few Sends, UDP and TCP. Non-trivial = history with a failed "
-          "heartbeat or a disconnect and an epoch change or termination; distinct by plan."),
+          "connection-state responses, inbound requests, socket death, a few Sends, UDP and TCP; the gateway hands out a fresh or the "
+          "previous channel number. Job real (real clock): 2..4 goroutines in Send, the first unacknowledged, while the gateway forces a "
+          "reconnect. Job conformance: the real constructors against a loopback gateway. Non-trivial = history with a failed "
+          "heartbeat or a disconnect and an epoch change or termination, or a Send that crossed a reconnect; distinct by plan."),
     level_text=("Sampled gateway behaviours on a fake clock against a reference model that predicts every ConnStateReq / ConnReq / DiscRes "
                 "(kind, channel, exact instant) from the frames the client took in, the instant of termination (Inbound closes then), "
                 "the channel and the restart of the sequence numbers after a reconnect, and failing Sends after termination."),
-    level_note="Trusted: the heartbeat/epoch model in harness/tun/c09_test.go. With overlapping exchanges (heartbeat < timeout) only exchange start times and the admissible resend schedules are checked (which exchange receives a response is not determined). Histories the model cannot resolve (a delivery exactly on a tick) are counted as inconclusive. Send racing a successful reconnect is outside the virtual-time discipline.",
+    level_note="Trusted: the heartbeat/epoch model in harness/tun/c09_test.go. With overlapping exchanges (heartbeat < timeout) which exchange receives a response is not determined: oracleC09Overlap asserts only what holds for every assignment (start times, schedules, no request between epochs, explained epoch ends, dead exchanges end their epoch by x+T). Histories the exact model cannot resolve (a delivery exactly on a tick, two different responses at one instant) are counted as inconclusive. Send racing a reconnect is judged on the real clock with a 100 ms grace.",
     technique="rapid model-based testing of generated gateway fate scripts under testing/synctest virtual time (reference heartbeat/reconnect model, exact instants)",
     assumptions=_TUN_ASSUME,
     jobs=[dict(name="bubble", pkg="./tun", go=GO126, test="TestC09B", shards=(4, 16), checks=(2500, 30000), timeout=(600, 3000)),
@@ -284,7 +293,9 @@ CHECKS["C10"] = dict(
     rule=("fake clock: plans of the C03, C04 and C09 generators with one Close injected at a uniformly drawn instant (during a pending Send, "
           "a heartbeat exchange, a reconnect, with deliveries parked, after the socket died), with and without a reader on Inbound, "
           "followed by a second Close and a Send; real clock under the race detector: 1..6 free-running senders, inbound bursts, short "
-          "heartbeats, forced reconnects and 1..4 concurrent closers at drawn offsets. Non-trivial = Close landing while a Send, a "
+          "heartbeats, forced reconnects and 1..4 concurrent closers at drawn offsets, a quarter of the runs with 2..4 closers arriving "
+          "while a reconnect attempt the gateway never answers is pending; after every Close call returns, that caller probes Inbound "
+          "with a non-blocking receive and may issue a Send. Non-trivial = Close landing while a Send, a "
           "heartbeat exchange, a reconnect or a parked delivery was in progress; distinct by plan."),
     level_text=("Sampled injection points and schedules. Fake clock: Close returns within the response timeout (at once when no reconnect is "
                 "under way), at most one disconnect request - exactly one if the socket was usable - Inbound closed and no telegram read "
@@ -320,7 +331,9 @@ CHECKS["C16"] = dict(
           "services with bodies up to 65529 bytes) written as one segment, a single cut at a drawn position, 1-byte dribble or irregular "
           "segments, with and without pauses, ended by the peer or by Close; every single cut position of a fixed 4-frame stream "
           "(exhaustive); UDP sequences of 1..40 datagrams; 1..8 goroutines sending 1..40 frames concurrently over UDP and TCP; "
-          "knx.NewTunnel over both socket kinds with SendLocalAddress on/off. Non-trivial = TCP stream of >= 2 frames with a cut, or "
+          "knx.NewTunnel over both socket kinds with SendLocalAddress on/off; the multicast RouterSocket receiving 1..40 datagrams from "
+          "and sending 1..24 frames (1..6 goroutines) to a group member; Close called at a drawn moment while the peer keeps transmitting "
+          "20..300 distinct frames (UDP and TCP). Non-trivial = TCP stream of >= 2 frames with a cut, or "
           ">= 2 concurrent senders, or a UDP/HPAI case; distinct by plan."),
     level_text=("Sampled streams and segmentations on real kernel sockets; oracle: the values read from Inbound() equal the in-process "
                 "decodes of the transmitted frames, in order, each once; every unit the peer receives is the complete encoding of one sent "
@@ -336,7 +349,8 @@ CHECKS["C20"] = dict(
     rule=("rapid-drawn calls on real sockets: DescribeTunnel against a loopback UDP server and Discover against 1..20 multicast responders "
           "(own 239.255.x.y group and port per case), timeouts 1..500 ms, scripts of 0..12 frames at drawn instants before, around and "
           "after the deadline: matching responses, well-formed frames of other services, malformed frames, (describe) a matching response "
-          "from another address; plus DescribeTunnel against a port nobody listens on. Non-trivial = script with a non-matching or "
+          "from another address; chatter scripts (a frame of another service every timeout/2 for timeout + 1.6 s); bursts of 3..8 long "
+          "answers behind the first one, the call repeated 8 times; plus DescribeTunnel against a port nobody listens on. Non-trivial = script with a non-matching or "
           "malformed frame before the first match, a late first match, or no match; distinct by plan."),
     level_text=("Sampled responder scripts on the real clock: the result is nil or the decode of the first description response sent by "
                 "the queried address (discovery: a duplicate-free subsequence, in send order, of the search responses sent, containing "
@@ -354,7 +368,8 @@ CHECKS["C12"] = dict(
           "destination (inbound) through both group clients; rapid: group events (command read/response/write, any source and "
           "destination, payload lengths dense around 0/15/16/254, first byte 0..255) sent through a group tunnel / group router, "
           "streams of 1..40 inbound cEMI messages of every kind (L_Data req/con/ind, L_Raw.*, L_Busmon, unsupported) with both address "
-          "types, and end-to-end pairs relayed as a gateway does (bytes decoded, request turned into indication). Every case is "
+          "types, end-to-end pairs relayed as a gateway does (bytes decoded, request turned into indication), and up to 8 goroutines "
+          "sending 2..16 different events through one client concurrently (wire frames matched to events as multisets). Every case is "
           "non-trivial; distinct by plan."),
     level_text=("Sampled events and message streams plus the enumerated sub-spaces; outbound frames are read by the independent reference "
                 "decoder (group flag, hop count 6, low priority, standard-frame flag <=> payload <= 15 bytes, application code, payload, "
